@@ -259,7 +259,9 @@ class Connection(protocol.Protocol, policies.TimeoutMixin):
         self._deliverRecords()
 
     def receive_record(self):
-        d = defer.Deferred()
+        # a caller that gives up (d.cancel(), e.g. from addTimeout) must not
+        # swallow the next record
+        d = defer.Deferred(canceller=self._stop_waiting)
         self._waiting_reads.append(d)
         self._deliverRecords()
         if self._gone:
@@ -267,6 +269,10 @@ class Connection(protocol.Protocol, policies.TimeoutMixin):
             # have been handed out above, any further read fails at once
             self._fail_waiting_reads()
         return d
+
+    def _stop_waiting(self, d):
+        if d in self._waiting_reads:
+            self._waiting_reads.remove(d)
 
     def _fail_waiting_reads(self):
         while self._waiting_reads:
